@@ -366,11 +366,12 @@ class PeerBase:
     def serve(self, c):
         """Server role on an established connection."""
         try:
-            self.send(c, 'banner', self.banner_blob())
             eager = bool(self.script.get('eager')) and self.script.get('proto', 2) != 1
             if eager:
-                # say everything at once: the KEXINIT follows the banner without waiting for the other side's identification
-                self.send(c, 'kexinit', self.kexinit_packet())
+                # say everything at once, in one write: the KEXINIT follows the banner without waiting for the other side's identification
+                self.send(c, 'kexinit', self.banner_blob() + self.kexinit_packet())
+            else:
+                self.send(c, 'banner', self.banner_blob())
             line = self.read_line(c)
             c.client_banner = line
             self.log('client-banner', c.idx, line=line.decode('latin-1'))
